@@ -43,12 +43,17 @@ def opts(s):
     return s[1:] if s[:1] == "S" else None
 
 
+def optnd(s):
+    """py_version_nodot: 'N' = None, 'S<text>' = str, 'I<digits>' = int (sysconfig may report either)"""
+    return int(s[1:]) if s[:1] == "I" else opts(s)
+
+
 def show(it):
     return ",".join(str(t) for t in it)
 
 
 @contextlib.contextmanager
-def interpreter(cfg, sysver=None, name=None, nodot=_MISSING, ext=_MISSING, system=None, plat=None):
+def interpreter(cfg, sysver=None, name=None, nodot=_MISSING, ext=_MISSING, system=None, plat=None, mac_ver=None):
     """cfg = 'd,g,p,u,r,e,w' (Py_DEBUG, Py_GIL_DISABLED, WITH_PYMALLOC, Py_UNICODE_SIZE, gettotalrefcount?, _d.pyd?, wide?)"""
     d, g, p, u, r, e, w = cfg.split(",")
     table = {"Py_DEBUG": optn(d), "Py_GIL_DISABLED": optn(g), "WITH_PYMALLOC": optn(p), "Py_UNICODE_SIZE": optn(u)}
@@ -73,6 +78,8 @@ def interpreter(cfg, sysver=None, name=None, nodot=_MISSING, ext=_MISSING, syste
         if system is not None:
             st.enter_context(patched(platform, "system", lambda: system))
             st.enter_context(patched(sysconfig, "get_platform", lambda: plat))
+        if mac_ver is not None:
+            st.enter_context(patched(platform, "mac_ver", lambda: (mac_ver[0], ("", "", ""), mac_ver[1])))
         sufs[:] = [x for x in saved if x != "_d.pyd"] + (["_d.pyd"] if e == "T" else [])
         try:
             yield
@@ -85,6 +92,79 @@ def feed(lst, salt):
     of the case text, the answer must not depend on it"""
     sel = (sum(len(x) for x in lst) + len(lst) + salt) % 4
     return [lst, iter(lst), (x for x in lst), tuple(lst)][sel]
+
+
+CFG0 = "N,N,N,N,F,F,T"
+
+
+def det_kw(det):
+    """detected platforms: 'G<get_platform>' (generic system) | 'D<mac release>;<cpu>' (Darwin)"""
+    if det[:1] == "D":
+        ver, cpu = det[1:].split(";")
+        return dict(system="Darwin", plat="macosx-10.9-universal2", mac_ver=(ver, cpu))
+    return dict(system="Generic", plat=det[1:])
+
+
+def opt_pv(v, salt):
+    """python_version: '' = not given (None or the empty tuple - both are falsy)"""
+    if v: return pv(v)
+    return None if salt % 2 else ()
+
+
+def opt_ps(ps, salt):
+    """platforms: '' = no platform given (None or an empty list - both are falsy; an empty *iterator* would be truthy)"""
+    if plist(ps): return feed(plist(ps), 1)
+    return None if salt % 2 else []
+
+
+def law_sys(name, nodot, sysver, ext, cfg, spec):
+    """list(sys_tags()) is the concatenation of the interpreter-specific and the compatible sequence, each over the whole detected
+    platform list in its order; no Tag repeated (outside the documented class: an interpreter named like a py* tag)"""
+    kind, rest = spec[:1], spec[1:]
+    with contextlib.ExitStack() as st:
+        if kind == "L":
+            import plat_impl                       # lazily: plat_impl imports this module
+            glibc, arch = rest.split(";")
+            st.enter_context(plat_impl.linux_env("Sglibc " + glibc, "I", "X", "-"))
+            st.enter_context(interpreter(cfg, sysver=pv(sysver), name=name, nodot=optnd(nodot), ext=opts(ext), system="Linux", plat="linux-" + arch))
+        else:
+            st.enter_context(interpreter(cfg, sysver=pv(sysver), name=name, nodot=optnd(nodot), ext=opts(ext), **det_kw(spec)))
+        plats = list(tags.platform_tags())
+        try:
+            whole = list(tags.sys_tags())
+        except (SystemError, IndexError) as e:          # IndexError: EXT_SUFFIX forms like ".cpython.so" (GCrash in the model)
+            try:
+                list(tags.generic_tags())
+            except type(e):
+                return "ok"
+            return "sys_tags raised %s but generic_tags() does not" % type(e).__name__
+        short = tags.interpreter_name()
+        if short == "cp":
+            first = list(tags.cpython_tags())
+            interp = "cp" + tags.interpreter_version()
+        else:
+            first = list(tags.generic_tags())
+            interp = "pp3" if short == "pp" else None
+        second = list(tags.compatible_tags(interpreter=interp))
+        own = short + tags.interpreter_version()
+    if whole != first + second: return "sys_tags() is not the interpreter-specific sequence followed by the compatible sequence"
+    n = len(plats)
+    if n == 0: return "ok" if all(t.platform == "any" for t in whole) else "tags for a platform although none was detected"
+    nrange = (len(second) - (1 if interp else 0)) // (n + 1)
+    body = first + second[:nrange * n]
+    if len(first) % n: return "interpreter-specific part is not a whole number of platform lists"
+    for k in range(0, len(body), n):
+        blk = body[k:k + n]
+        if [t.platform for t in blk] != [p.lower() for p in plats]: return "a block does not run over the detected platforms in their order"
+        if len({(t.interpreter, t.abi) for t in blk}) != 1: return "a block mixes interpreter/abi"
+    if [t.platform for t in second[nrange * n:]] != ["any"] * (len(second) - nrange * n): return "the tail of the compatible sequence is not none-any"
+    if short != "cp" and any(t.interpreter != own.lower() for t in first): return "generic tags carry a foreign interpreter"
+    if short == "cp" and not all(t.interpreter.startswith("cp") for t in first): return "cpython block with a non-cp interpreter"
+    v = pv(sysver)
+    pyr = ["py%d%d" % v[:2], "py%d" % v[0]] + ["py%d%d" % (v[0], z) for z in range(v[1] - 1, -1, -1)]
+    if len(set(plats)) == len(plats) and "any" not in plats and (short == "cp" or own.lower() not in pyr):
+        if len(set(whole)) != len(whole): return "sys_tags() repeats a tag"
+    return "ok"
 
 
 def observe(cmd, args):
@@ -112,28 +192,67 @@ def observe(cmd, args):
                 return show(list(tags.sys_tags()))
             except SystemError:
                 return "E"
+    if cmd == "t.cpythond":
+        v, abis, ps, cfg, sysver, det = args
+        with interpreter(cfg, sysver=pv(sysver), **det_kw(det)):
+            return show(list(tags.cpython_tags(opt_pv(v, len(ps)), None if abis == "?" else feed(plist(abis), 0), opt_ps(ps, len(v)),
+                                               warn=len(det) % 2 == 0)))          # warn only logs: the answer must not depend on it
+    if cmd == "t.compatd":
+        v, interp, ps, sysver, det = args
+        with interpreter(CFG0, sysver=pv(sysver), **det_kw(det)):
+            return show(tags.compatible_tags(opt_pv(v, len(ps)), interp or None, opt_ps(ps, len(v))))
+    if cmd == "t.genericd":
+        interp, abis, ps, name, nodot, sysver, det = args
+        with interpreter(CFG0, sysver=pv(sysver), name=name, nodot=optnd(nodot), **det_kw(det)):
+            return show(tags.generic_tags(interp or (None if len(abis) % 2 else ""), feed(plist(abis), 0), opt_ps(ps, len(abis)), warn=len(det) % 2 == 1))
+    if cmd == "t.sysp":
+        name, nodot, sysver, ext, cfg, det = args
+        with interpreter(cfg, sysver=pv(sysver), name=name, nodot=optnd(nodot), ext=opts(ext), **det_kw(det)):
+            try:
+                return show(list(tags.sys_tags(warn=len(det) % 2 == 0)))
+            except SystemError:
+                return "E"
+    if cmd == "law.t.sys":
+        return law_sys(*args)
     if cmd == "law.t.shape":
-        # clauses of the statement evaluated directly on the implementation (inputs: lower-case ASCII, no '-' in platforms)
+        # clauses of the statement evaluated directly on the implementation (ASCII inputs of any case, no '-' in ABIs/platforms).
+        # "no repeats in the inputs" is read on the Tag level: after lower-casing, and no explicit ABI is a differently-cased
+        # spelling of abi3/none (C15_nodup_tags_*; C15_case_induced_repeats shows the reading is necessary)
         v, abis, ps, interp = args
         v, abis, ps = pv(v), plist(abis), plist(ps)
         cp = [str(t) for t in tags.cpython_tags(v, abis, ps)]
         co = [str(t) for t in tags.compatible_tags(v, interp or None, ps)]
         ge = [str(t) for t in tags.generic_tags(interp or "xx1", abis, ps)]
         nodup = lambda l: len(set(l)) == len(l)
-        if nodup(abis) and nodup(ps):
-            if not nodup(cp): return "cpython_tags repeats a tag"
-            if not nodup(ge): return "generic_tags repeats a tag"
-            if "any" not in ps and not (interp or "").startswith("py") and not nodup(co): return "compatible_tags repeats a tag"
+        labis, lps = [a.lower() for a in abis], [p.lower() for p in ps]
+        rest = list(abis)
+        for x in ("abi3", "none"):
+            if x in rest: rest.remove(x)
+        lrest = [a.lower() for a in rest]
+        pyr = ["py%d%d" % (v[0], v[1]), "py%d" % v[0]] + ["py%d%d" % (v[0], z) for z in range(v[1] - 1, -1, -1)] if len(v) > 1 else ["py%d" % v[0]]
+        if nodup(labis) and nodup(lps):
+            if "abi3" not in lrest and "none" not in lrest and not nodup(cp): return "cpython_tags repeats a tag"
+            if ("none" in abis or "none" not in labis) and not nodup(ge): return "generic_tags repeats a tag"
+        if nodup(lps) and "any" not in lps and (interp or "").lower() not in pyr and not nodup(co): return "compatible_tags repeats a tag"
         nany = (len(co) - (1 if interp else 0)) // (len(ps) + 1)
         for nm, seq in (("cpython_tags", cp), ("compatible_tags", co[:nany * len(ps)]), ("generic_tags", ge)):
             if len(seq) % len(ps): return nm + ": a block is not a whole platform list"
             for k in range(0, len(seq), len(ps)):
                 blk = seq[k:k + len(ps)]
-                if [t.rsplit("-", 1)[1] for t in blk] != ps: return nm + ": platform order inside a block differs from the caller's"
+                if [t.rsplit("-", 1)[1] for t in blk] != lps: return nm + ": platform order inside a block differs from the caller's"
                 if len({t.rsplit("-", 1)[0] for t in blk}) != 1: return nm + ": a block mixes interpreter/abi"
-        if abis.count("abi3") <= 1 and abis.count("none") <= 1 and any(t.split("-")[1] == "abi3" for t in cp):
-            rest = [a for a in abis if a not in ("abi3", "none")]
+        # the given ABIs come first, in the caller's order, then abi3 (if at all), then none
+        want_head = [a.lower() for a in rest]
+        got = [cp[k].split("-")[1] for k in range(0, len(cp), len(ps))]
+        if got[:len(want_head)] != want_head: return "cpython_tags: the explicit ABIs are not first / not in the caller's order"
+        tail = got[len(want_head):]
+        if tail[:1] == ["abi3"]:
+            if tail[1:2] != ["none"] or any(x != "abi3" for x in tail[2:]): return "cpython_tags: after the ABIs: abi3, none, then only older abi3"
             if len(v) < 2 or v[:2] < (3, 2): return "abi3 offered below 3.2 / for a major-only version"
+            if len(tail) - 2 != max(v[1] - 2, 0): return "cpython_tags: older minors are not exactly minor-1 .. 2"
             if rest and re.match(r"cp[0-9]+[^\n]*t", rest[0]): return "abi3 offered for a free-threaded ABI"
+        else:
+            if tail != ["none"]: return "cpython_tags: without abi3 the sequence must end with the none block"
+            if len(v) > 1 and v[:2] >= (3, 2) and not (rest and re.match(r"cp[0-9]+[^\n]*t", rest[0])): return "abi3 missing for a non-free-threaded 3.2+ version"
         return "ok"
     raise KeyError(cmd)
